@@ -401,9 +401,14 @@ func (p *provider) updateStatus(
 
 	modRS.Status.ActiveIn = x.IfThenElse(len(modRS.Status.ActiveIn) == 0, "0/0", modRS.Status.ActiveIn)
 
-	usedBy := strings.Split(modRS.Status.ActiveIn, "/")
-	loadedBy, _ := strconv.Atoi(usedBy[0])
-	matchedBy, _ := strconv.Atoi(usedBy[1])
+	// the status is not under the exclusive control of heimdall and may
+	// contain anything. Values not following the expected format count as 0
+	var loadedBy, matchedBy int
+
+	if loaded, matched, found := strings.Cut(modRS.Status.ActiveIn, "/"); found {
+		loadedBy, _ = strconv.Atoi(loaded)
+		matchedBy, _ = strconv.Atoi(matched)
+	}
 
 	modRS.Status.ActiveIn = fmt.Sprintf("%d/%d", loadedBy+usageIncrement, matchedBy+matchIncrement)
 
